@@ -6,6 +6,7 @@ import (
 	"encoding/json"
 	"fmt"
 	"os"
+	"runtime"
 	"sort"
 	"strconv"
 	"strings"
@@ -170,6 +171,7 @@ func Main(t *testing.T, w *World) {
 		}
 	}()
 	wallStart := time.Now()
+	go watchdog()
 
 	if rp := os.Getenv("VERIF_REPLAY"); rp != "" {
 		b, err := os.ReadFile(rp)
@@ -182,7 +184,11 @@ func Main(t *testing.T, w *World) {
 			wr.Errors = append(wr.Errors, "replay file: "+err.Error())
 			return
 		}
+		simrt.SetDebug(os.Getenv("VERIF_DEBUG") != "")
 		res := w.exec(t, prop, simrt.ReplayChoices(rep.Choices), rep.PreemptMean, rep.RandSeed, 200)
+		for _, l := range res.Debug {
+			fmt.Println("  #", l)
+		}
 		wr.Runs = 1
 		wr.Steps = res.Steps
 		v := w.violationOf(prop, res)
@@ -361,4 +367,27 @@ func (w *World) minimise(t *testing.T, prop string, rep *Replay) {
 	}
 	rep.Choices = cur
 	rep.Minimised = true
+}
+
+// watchdog runs outside every bubble on the real clock: if the scheduler makes
+// no decision for a while the process dumps all stacks and exits 3 (the wrapper
+// reports CHECK-ERROR, never a violation).
+func watchdog() {
+	limit := time.Duration(envInt("VERIF_STALL_MS", 60000)) * time.Millisecond
+	last := simrt.Progress()
+	lastChange := time.Now()
+	for {
+		time.Sleep(2 * time.Second)
+		p := simrt.Progress()
+		if p != last {
+			last, lastChange = p, time.Now()
+			continue
+		}
+		if time.Since(lastChange) > limit {
+			buf := make([]byte, 8<<20)
+			n := runtime.Stack(buf, true)
+			fmt.Fprintf(os.Stderr, "WATCHDOG: no scheduler progress for %v; goroutine dump:\n%s\n", limit, buf[:n])
+			os.Exit(3)
+		}
+	}
 }
